@@ -480,6 +480,19 @@ def mutex_unlock(ex, st, th, a):
     st.sync_cnt[('U', th.tid)] = n
     _unlock(ex, st, th, ex.need_int(st, a[0]))
     st.last_sync = ('U', th.tid, n)
+    # fairness: the cooperative schedule lets a thread run until it blocks; a thread that polls (takes and releases a
+    # mutex over and over without ever blocking) must not starve the others for ever - after 256 releases in a row it
+    # yields once to the next runnable thread, as any fair OS scheduler eventually would
+    run = st.flags.get('spin')
+    if run is not None and run[0] == th.tid:
+        k = run[1] + 1
+    else:
+        k = 1
+    if k >= 256:
+        k = 0
+        if any(t2.tid != th.tid and t2.status == 'run' and t2.frames for t2 in st.threads):
+            st.switch = True
+    st.flags['spin'] = (th.tid, k)
     return 0
 
 
@@ -577,6 +590,11 @@ def thread_start(ex, st, th, a):
         n = st.sync_cnt.get(('S', th.tid), 0) + 1
         st.sync_cnt[('S', th.tid)] = n
         st.last_sync = ('S', th.tid, n)
+    if ex.child_first:
+        # second base schedule: a newly created thread runs first (the creator continues when the child blocks or is
+        # preempted); not counted against the preemption budget
+        st.switch = True
+        st.force_next = tid
     hook = ex.hooks.get('thread_start')
     if hook is not None:
         hook(ex, st, th, t)
